@@ -32,6 +32,34 @@ ERR = "rtcm_error::RtcmError"
 POISON = ("poison",)
 
 
+class FiltIt(object):
+    """data[..].iter()[.enumerate()].filter(pred): the inner cursor and the predicate closure"""
+
+    def __init__(self, inner, pred):
+        self.inner, self.pred = inner, pred
+
+    def copy_val(self, memo, cp):
+        return FiltIt(cp(self.inner, memo), self.pred)
+
+    def gen_with(self, o):
+        if isinstance(o, FiltIt) and o.pred.path == self.pred.path:
+            g = _gen(self.inner, o.inner)
+            return POISON if g is POISON else FiltIt(g, self.pred)
+        return POISON
+
+    def shifted(self, d):
+        return FiltIt(_shift(self.inner, d), self.pred)
+
+    def at_zero(self):
+        return FiltIt(_at_zero(self.inner), self.pred)
+
+    def same(self, o):
+        return isinstance(o, FiltIt) and o.pred.path == self.pred.path and _same(self.inner, o.inner)
+
+    def __repr__(self):
+        return "filter(%s)" % _show(self.inner)
+
+
 class ScanState(FrameState):
     def __init__(self):
         FrameState.__init__(self)
@@ -190,6 +218,22 @@ class ScanInterp(FrameInterp):
                             self.learn(s2, 1, add(idx, 1), False)
                             return Adt("core::option::Option", 0, "None", [])
                         return ("fork-fn", [some, none])
+        if c == "core::iter::Iterator::filter" and len(t["args"]) == 2:
+            a0 = self.operand(st, t["args"][0])
+            clo = self.operand(st, t["args"][1])
+            if isinstance(a0, It) and isinstance(clo, Closure):
+                return FiltIt(a0, clo)
+            raise Undecided("filter over something that is not the input's byte iterator")
+        if short == "into_iter" and len(t["args"]) == 1:
+            a0 = self.operand(st, t["args"][0])
+            if isinstance(a0, FiltIt):
+                return a0
+        if c == "<core::iter::Filter<I, P> as core::iter::Iterator>::next":
+            r = self.operand(st, t["args"][0])
+            obj = self._get(st, r.loc) if isinstance(r, Ref) else None
+            if isinstance(obj, FiltIt):
+                return self.filter_next(st, r.loc, obj)
+            raise Undecided("Filter::next on an unmodelled iterator")
         if short == "position" and "Iterator" in c and len(t["args"]) == 2:
             r = self.operand(st, t["args"][0])
             clo = self.operand(st, t["args"][1])
@@ -230,13 +274,43 @@ class ScanInterp(FrameInterp):
         With every position below `start` dismissed (the loop invariant), Some(off) lets the invariant advance to start+off: the scan position
         is re-based there (Q := start + off), values computed from the old position become stale and only `stale + off` is meaningful."""
         pa, pc = lin_parts(start)
+        return self.search(st, start, clo, lambda pos: Ref(("byte", pos)), False, lambda s2: Opaque("off", (pa, pc)), None)
+
+    def filter_next(self, st, floc, filt):
+        """<Filter<..> as Iterator>::next: the first item from the cursor on that satisfies the predicate - the same search"""
+        inner = filt.inner
+        if inner.take is not None or inner.skip is not None or inner.end is not None:
+            raise Undecided("filter over a bounded iterator")
+        d = None
+        if inner.enum is not None:
+            d = lin_parts(sub(inner.enum, inner.idx))
+            if d is None or d[0] != 0:
+                raise Undecided("enumerate counter not in step with the cursor")
+            d = d[1]
+
+        def item(pos):
+            return Tup([add(pos, d), Ref(("byte", pos))]) if d is not None else Ref(("byte", pos))
+
+        def found(s2):
+            f2 = self._get(s2, floc)
+            f2.inner.idx = Lin(1, 1)
+            if d is not None:
+                f2.inner.enum = Lin(1, 1 + d)
+            return item(Lin(1, 0))
+        return self.search(st, inner.idx, filt.pred, item, True, found, floc)
+
+    def search(self, st, start, clo, item, by_ref, result, keep):
+        pa, pc = lin_parts(start)
         if st.scan_calls:
             raise Undecided("a search after a frame was tried in the same iteration")
-        # the predicate, evaluated on the byte at `start` in a scratch state that knows the byte exists
+        # the predicate, evaluated on the item at `start` in a scratch state that knows the byte exists
         probe = st.clone()
         self.learn(probe, 1, add(start, 1), True)
-        probe.locals[-77] = Ref(("byte", start))
-        pr = self.exec_closure(probe, clo, [Ref(("byte", start))])
+        arg = item(start)
+        if by_ref:
+            probe.locals[-78] = arg
+            arg = Ref(("local", -78, (), probe.frame))
+        pr = self.exec_closure(probe, clo, [arg])
         bb = byte_bv(pa, pc).bits
         d3 = bv_const(0xD3, 8).bits
         okp = isinstance(pr, framesem.BPred) and not pr.neg and any(
@@ -247,9 +321,16 @@ class ScanInterp(FrameInterp):
 
         def some(s2):
             # re-base: forget everything expressed in the old position
+            kept = self._get(s2, keep) if keep is not None else None
+            seen_frames = set()
             for frame in list(s2.frames.values()) + [s2.locals]:
+                if id(frame) in seen_frames:
+                    continue
+                seen_frames.add(id(frame))
                 for k in list(frame.keys()):
                     v = frame[k]
+                    if kept is not None and (v is kept or v is kept.inner):
+                        continue          # the searching iterator itself (and moved-from copies of it): its cursor is re-set by `result`
                     if isinstance(v, Lin):
                         frame[k] = Opaque("stale", (v.a, v.c - pc if pa == 1 else None, pa))
                     elif _mentions_q(v):
@@ -258,7 +339,7 @@ class ScanInterp(FrameInterp):
             s2.vfacts = [(byte_bv(1, 0).bits, "eq", 0xD3)]
             s2.len_lb, s2.len_lb2, s2.len_ub = Lin(1, 1), None, None
             s2.rebased = getattr(s2, "rebased", 0) + 1
-            return Adt("core::option::Option", 1, "Some", [Opaque("off", (pa, pc))])
+            return Adt("core::option::Option", 1, "Some", [result(s2)])
 
         def none(s2):
             s2.all_dismissed = True
@@ -277,6 +358,8 @@ def _mentions_q(v, depth=0):
         return any(_mentions_q(x, depth + 1) for x in v.loc[1:] if not isinstance(x, (str, tuple)) or isinstance(x, Lin))
     if isinstance(v, It):
         return any(_mentions_q(x, depth + 1) for x in (v.idx, v.end, v.enum))
+    if isinstance(v, FiltIt):
+        return _mentions_q(v.inner, depth + 1)
     if isinstance(v, (Tup, Adt, Closure)):
         return any(_mentions_q(x, depth + 1) for x in v.fields)
     if isinstance(v, list):
@@ -290,6 +373,12 @@ _GEN_MEMO = {}
 
 def _gen(a, b):
     """the common shape of a (position 0) and b (position 1) with the parts that moved 0 -> 1 replaced by K"""
+    if hasattr(a, "gen_with"):
+        if (id(a), id(b)) in _GEN_MEMO:
+            return _GEN_MEMO[(id(a), id(b))]
+        r = a.gen_with(b)
+        _GEN_MEMO[(id(a), id(b))] = r
+        return r
     if isinstance(a, bool) or isinstance(b, bool):
         return a if a == b else POISON
     if isinstance(a, int) and isinstance(b, int):
@@ -361,6 +450,8 @@ def _has_poison(v, depth=0):
 
 def _shift(v, d):
     """v with K replaced by K + d (d may be -K.. only via subst0)"""
+    if hasattr(v, "shifted"):
+        return v.shifted(d)
     if isinstance(v, Lin):
         return mklin(v.a, v.c + v.a * d)
     if isinstance(v, Sym):
@@ -391,6 +482,8 @@ def _shift(v, d):
 
 def _at_zero(v):
     """v with K = 0"""
+    if hasattr(v, "at_zero"):
+        return v.at_zero()
     if isinstance(v, Lin):
         return v.c
     if isinstance(v, Sym):
@@ -422,6 +515,8 @@ def _at_zero(v):
 def _same(a, b, depth=0):
     if depth > 8:
         return False
+    if hasattr(a, "same"):
+        return a.same(b)
     if isinstance(a, (int, Lin)) and isinstance(b, (int, Lin)) and not isinstance(a, bool) and not isinstance(b, bool):
         return lin_parts(a) == lin_parts(b)
     if type(a) is not type(b):
